@@ -1691,6 +1691,8 @@ class ThroughputCalculator:
                 start_time=first_sample.absolute_time - first_sample.time_period,
             )
         current = self.task_stats[task]
+        # all previously unprocessed samples are part of `current_samples` and will be carried over again if needed
+        current.unprocessed = []
         count = current.total_count
         last_sample = None
         for sample in current_samples:
